@@ -236,7 +236,13 @@ pub fn scenario_expiry(seed: u64, rep: &mut Report) {
         let old_gens = e.peers[0].mon_keys.len();
         // optional refreshing traffic after a short pause
         let mut last_use = Instant::now();
-        let refresh = if transmissions >= 2 && rng.chance(1, 3) { 3 } else { rng.below(3) };
+        let refresh = if transmissions >= 2 && rng.chance(1, 3) {
+            3
+        } else if rng.chance(1, 4) {
+            4
+        } else {
+            rng.below(3)
+        };
         let mut idle_choice: Option<u64> = None;
         if refresh == 3 {
             // a request the peer never answers: its first transmission is a use of the session,
@@ -251,6 +257,21 @@ pub fn scenario_expiry(seed: u64, rep: &mut Report) {
             let again = e.trace.iter().filter(|t| matches!(&t.ev, Ev::Sent { class: OutClass::Message { msg: Some(m), .. }, .. } if m.is_request())).count();
             if again >= 2 {
                 rep.count("retransmissions_while_idle");
+            }
+            idle_choice = Some(*rng.pick(&[45u64, 45, 130]));
+        } else if refresh == 4 {
+            // the peer's earlier handshake packet arrives once more (a duplicate on the network, or
+            // a repetition by the peer) 60 ms into the idle period, when no challenge is
+            // outstanding: it is dropped, and being dropped is not a use of the session
+            let hs = e.trace.iter().find_map(|t| match &t.ev {
+                Ev::Injected { from, class: c @ crate::rig::engine::InClass::Handshake { .. }, bytes, .. } => Some((*from, c.clone(), bytes.clone())),
+                _ => None,
+            });
+            std::thread::sleep(Duration::from_millis(60));
+            if let Some((from, class, bytes)) = hs {
+                e.inject_now(Some(0), from, bytes, crate::rig::engine::InClass::Replay { of: Box::new(class), same_source: true });
+                e.drain().await;
+                rep.count("stray_handshake_packets_while_idle");
             }
             idle_choice = Some(*rng.pick(&[45u64, 45, 130]));
         } else if refresh > 0 {
@@ -283,7 +304,7 @@ pub fn scenario_expiry(seed: u64, rep: &mut Report) {
             Ev::Out(HandlerOut::Request(..)) => !outbound,
             _ => false,
         });
-        let refresh_name = ["none", "inbound", "outbound", "outbound request left unanswered and retransmitted"][refresh as usize];
+        let refresh_name = ["none", "inbound", "outbound", "outbound request left unanswered and retransmitted", "a repeated handshake packet that matches no challenge"][refresh as usize];
         let w = json!({"scenario_seed": seed.to_string(), "kind": "expiry", "direction": if outbound { "outbound request" } else { "inbound message under the old keys" }, "refresh": refresh_name, "idle_ms": [idle_lo.as_millis() as u64, idle_hi.as_millis() as u64], "ttl_ms": 80, "trace": e.dump_trace(12)});
         if definitely_expired {
             rep.count("probes_after_expiry");
@@ -309,8 +330,16 @@ pub fn scenario_capacity(seed: u64, rep: &mut Report) {
         let mut rng = Rng::new(seed ^ 0x15C);
         let capacity = 1 + rng.usize(4);
         let npeers = capacity + 1 + rng.usize(3);
-        let cfg = RigConfig { session_timeout: Duration::from_secs(3600), session_cache_capacity: capacity, ..Default::default() };
-        let mut e = Engine::new(seed, cfg, npeers, None).await;
+        // the capacity is the configured one whatever the node listens on: one IPv4 socket, one
+        // IPv6 socket, or both
+        let stack = *rng.pick(&[crate::rig::r1::Stack::V4, crate::rig::r1::Stack::Dual, crate::rig::r1::Stack::Dual, crate::rig::r1::Stack::V6]);
+        let addrs: Option<Vec<std::net::SocketAddr>> = match stack {
+            crate::rig::r1::Stack::V4 => None,
+            crate::rig::r1::Stack::V6 => Some((0..npeers).map(|i| crate::rig::r1::v6(0x60 + i as u16, 9000)).collect()),
+            crate::rig::r1::Stack::Dual => Some((0..npeers).map(|i| if i % 2 == 0 { crate::rig::r1::v4(10, 0, 1, 2 + i as u8, 9000) } else { crate::rig::r1::v6(0x60 + i as u16, 9000) }).collect()),
+        };
+        let cfg = RigConfig { stack, session_timeout: Duration::from_secs(3600), session_cache_capacity: capacity, ..Default::default() };
+        let mut e = Engine::new(seed, cfg, npeers, addrs).await;
         e.wru_delays = vec![Some(Duration::ZERO)];
         // model: least recently used first
         let mut lru: Vec<usize> = Vec::new();
